@@ -94,6 +94,8 @@ def run(F, chk):
     check_pseudonym_keys(F, E5)
     E6 = chk.rule('E6', 'plugins (rewrite excepted) store a whole extended header into a message only when it has none')
     check_ext_header_only_added(F, E6)
+    E7 = chk.rule('E7', 'the file-transfer plugin returns false only for messages whose apid/ctid equal the configured ones (or none is configured)')
+    check_removal_only_configured_context(F, E7)
 
     # plugin stage linearity
     stages = [b for b in F.order if b.crate == 'lib' and b.kind != 'closure' and
@@ -227,3 +229,71 @@ def check_ext_header_only_added(F, E6):
                         E6.violation(('ext-header-replaced', b.closure_of or b.path), '%s stores a whole extended header into the message at %s without a dominating `extended_header.is_none()`: an existing extended header '
                                      '(APID, CTID, message type, level, noar) can be replaced' % (b.path, b.loc(s.sp)), where=b.loc(s.sp))
     E6.floor('stores of a whole extended header in plugins', n, 1)
+
+
+# ---------------------------------------------------------------------------------------------
+# E7: the file-transfer plugin removes only messages of its configured context
+
+def check_removal_only_configured_context(F, E7):
+    """FileTransferPlugin::process_msg may return `false` (the message is taken out of the stream) only for a message of the
+    configured context: on every path to a `false` return and for each of apid / ctid, either nothing is configured
+    (`self.<id>` is None) or the message id was compared with the configured one and found equal.  Path exploration with
+    one fact per id, set on the None edge of `self.<id>` and on the equal edge of the comparison."""
+    from paths import Explorer
+    bs = [x for x in F.order if x.crate == 'lib' and 'FileTransferPlugin' in x.path and x.path.endswith('::process_msg')]
+    E7.floor('FileTransferPlugin::process_msg', len(bs), 1)
+    for b in bs:
+        cfg = CFG(b)
+        E = ExprBuilder(cfg, fold_named=True)
+        E7.fn(b.path)
+        false_rets = [bi for (bi, si, d) in cfg.defs.get(0, []) if not (si != 'call' and d.rv['k'] == 'use' and Operand(d.rv['o']).is_const and Operand(d.rv['o']).value == 1)]
+        E7.floor('returns of process_msg that can be `false`', len(false_rets), 1)
+
+        def id_of(sc):
+            for x in ('apid', 'ctid'):
+                if ('(*self).%s' % x) in sc:
+                    return x
+            return None
+
+        def edge_effect(blk, tgt, facts):
+            if blk.term.k != 'switch':
+                return facts
+            c = E.switch_cond(blk)
+            sc = show(c)
+            x = id_of(sc)
+            if x is None:
+                return facts
+            vals = blk.term.d['vals']
+            v_edge = [v for v, t in vals if t == tgt]
+            oth = blk.term.d['otherwise'] == tgt
+            # None edge of discr(self.<id>)
+            if sc == 'discr((*self).%s)' % x:
+                is_none = (0 in v_edge) or (oth and all(v != 0 for v, _ in vals) and len(vals) == 1 and vals[0][0] == 1)
+                if is_none:
+                    return frozenset(facts | {('ok', x)})
+                return facts
+            # comparison with the message id
+            if ('DltMessage::%s(' % x) in sc and ('PartialEq::ne(' in sc or 'PartialEq::eq(' in sc):
+                truth = None
+                if v_edge:
+                    truth = (v_edge[0] != 0)
+                elif oth and all(v == 0 for v, _ in vals):
+                    truth = True
+                if truth is not None:
+                    equal = (not truth) if 'PartialEq::ne(' in sc else truth
+                    if equal:
+                        return frozenset(facts | {('ok', x)})
+            return facts
+        ex = Explorer(cfg, edge_effect=edge_effect, var_roots=set())
+        ex.run()
+        E7.paths += ex.n_states
+        for rb in false_rets:
+            E7.sites += 1
+            bad = [st for st in ex.states.get(rb, ()) if not (('ok', 'apid') in st[1] and ('ok', 'ctid') in st[1])]
+            if bad:
+                miss = [x for x in ('apid', 'ctid') if ('ok', x) not in bad[0][1]]
+                E7.violation(('removes-foreign-message', b.path, '+'.join(miss)), '%s can return false (remove the message from the stream) at %s on a path where the message %s was not found equal to the configured one '
+                             '(and one is configured): data packages of other applications/contexts are swallowed' % (b.path, b.loc(b.blocks[rb].term.sp), '/'.join(miss)), where=b.loc(b.blocks[rb].term.sp),
+                             witness={'block_path': ex.witness(rb, bad[0])[-40:]})
+            else:
+                E7.ok(sample={'false_return_at': b.loc(b.blocks[rb].term.sp), 'only_for': 'messages whose apid and ctid equal the configured ones (or none configured)'})
